@@ -10,28 +10,44 @@ spec/MC_TlsAuth.tla    TLC enumerates the 72 cells of the matrix (one state = on
                        negative-control configurations (wrong reload implementations) must violate them
 harness_app tls_matrix real handshakes over an in-memory duplex: the application's make_server_config /
                        make_tls_identity / reload_tls_identity + tokio_rustls::TlsAcceptor (the server's serve path)
-                       against the application's tls_connect, rcgen-generated chains, application-data round trip
+                       against the application's tls_connect, rcgen-generated chains, application-data round trip;
+                       AND the real server entry point (`RSCRIPT` lines): server_main in the harness process on a
+                       loopback TCP port with --tls-cert/--tls-key[/--tls-ca], connections with tls_connect presenting
+                       the trusted client certificate / none / one of another CA, an HTTP round trip, reloads by
+                       rewriting the files and raising SIGUSR1 (the path check_start_tls -> register_signal_handler);
+                       the reload machine carries the server's client CA, which a reload keeps (ConfigKept,
+                       Authenticated; negative control "dropca")
 spec/TlsTrace.tla      TLC validates every logged line; unmatched lines come back with a signature
 
 A rejected line whose signature is an `open` entry of KNOWN_FINDINGS.json (`"property":"C17","sig":...`) is printed
 as KNOWN-FINDING and does not fail the check; any other signature is a VIOLATION.
 """
-import collections, json, os, re, shutil, sys, tempfile, time
+import collections, concurrent.futures, json, os, re, shutil, sys, tempfile, time
 
 import vlib
 from vlib import log, ToolError
 
 TIERS = {
     # cfg: enumeration; npki: independently generated PKI sets for the matrix; script_sets: PKI sets for the scripts
-    "quick": dict(cfg="MC_TlsAuth_q", npki=3, script_sets=1, algs="p256,p384,ed25519",
-                  bounds="<= 2 connections x <= 2 reloads x <= 2 uses, with and without mutual TLS"),
-    "thorough": dict(cfg="MC_TlsAuth", npki=8, script_sets=2, algs="p256,p384,ed25519,rsa2048",
-                     bounds="<= 3 connections x <= 3 reloads x <= 3 uses, with and without mutual TLS"),
+    # real_procs: the real-server scripts are dealt out to that many harness processes running side by side (SIGUSR1
+    # is process-wide, so within a process the servers run one after the other); each process has its own PKI set
+    "quick": dict(cfg="MC_TlsAuth_q", npki=3, script_sets=1, algs="p256,p384,ed25519", real_procs=4,
+                  bounds="<= 2 connections x <= 2 reloads x <= 2 uses, with and without mutual TLS",
+                  real_bounds="real server (server_main + SIGUSR1): <= 2 connections, each presenting the trusted client "
+                              "certificate / none / one of another CA, x <= 2 reloads x <= 1 use, with and without mutual TLS"),
+    "thorough": dict(cfg="MC_TlsAuth", npki=8, script_sets=2, algs="p256,p384,ed25519,rsa2048", real_procs=8,
+                     bounds="<= 3 connections x <= 3 reloads x <= 3 uses, with and without mutual TLS",
+                     real_bounds="real server (server_main + SIGUSR1): <= 3 connections, each presenting the trusted client "
+                                 "certificate / none / one of another CA, x <= 2 reloads x <= 2 uses, with and without mutual TLS"),
 }
 NAMEKINDS = "localhost,dns,ip4,ip6"
 NEG_CONTROLS = {"MC_TlsAuth_neg_stale": "Fresh", "MC_TlsAuth_neg_inplace": "Undisturbed",
-                "MC_TlsAuth_neg_disconnect": "Undisturbed"}
-OUT_RE = re.compile(r'^<<"(CASE|SCRIPT)", "(.*)">>$')
+                "MC_TlsAuth_neg_disconnect": "Undisturbed",
+                # a reload that forgets the client CA: seen by the real-server scripts (a client without the right
+                # certificate gets in), invisible to scripts whose client always presents the right one (state only)
+                "MC_TlsAuth_neg_dropca": "Authenticated", "MC_TlsAuth_neg_dropca_cfg": "ConfigKept"}
+OUT_RE = re.compile(r'^<<"(CASE|SCRIPT|RSCRIPT)", "(.*)">>$')
+HEADERS = {"script": "step", "rscript": "rstep"}
 BAD_RE = re.compile(r'^<<"BAD", (\d+), "([^"]*)", "(.*)">>$')
 CELL = ("serverCert", "nameMatches", "skipVerify", "clientCert", "serverClientCA")
 MAX_REPLAY_ITEMS = 24
@@ -42,16 +58,17 @@ def _unq(s):
 
 
 def enumerate_cases(cfg):
-    """The model-checking run: the 72 cells and the reload scripts. Returns (cells, scripts, stats)."""
+    """The model-checking run: the 72 cells, the reload scripts and the real-server scripts.
+    Returns (cells, scripts, rscripts, stats)."""
     r = vlib.model_check("MC_TlsAuth", cfg, workers=1, timeout=1500, coverage=False)
     if not r["ok"]:
         log(r["out"][-3000:])
         raise ToolError(f"the reload machine violates {r['violated']} in {cfg} (triage spec/TlsAuth.tla)")
-    cells, scripts = [], []
+    cells, scripts, rscripts = [], [], []
     for line in r["out"].split("\n"):
         m = OUT_RE.match(line.strip())
         if m:
-            (cells if m.group(1) == "CASE" else scripts).append(_unq(m.group(2)))
+            dict(CASE=cells, SCRIPT=scripts, RSCRIPT=rscripts)[m.group(1)].append(_unq(m.group(2)))
     # vacuity / integrity of the enumeration
     keys = {tuple(c["case"][f] for f in CELL) for c in cells}
     if len(cells) != 72 or len(keys) != 72:
@@ -75,8 +92,34 @@ def enumerate_cases(cfg):
     n_uar = sum(1 for s in scripts if after_reload(s, "use"))
     if n_car == 0 or n_uar == 0:
         raise ToolError("vacuous scripts: no handshake / no use after a reload")
-    return cells, scripts, dict(distinct=r["distinct"], generated=r["states"], wall=r["wall"], by=by,
-                                connect_after_reload=n_car, use_after_reload=n_uar)
+    # the real-server scripts: what they must contain to say anything about client authentication across a reload
+    if not rscripts or len({json.dumps(s, sort_keys=True) for s in rscripts}) != len(rscripts):
+        raise ToolError("vacuous or duplicated real-server script enumeration")
+
+    def probes_after_reload(s, certs, outcome):
+        seen = False
+        for o, e in zip(s["ops"], s["exp"]):
+            if o["op"] == "reload":
+                seen = True
+            elif o["op"] == "connect" and seen and o["cc"] in certs and e["outcome"] == [outcome]:
+                return True
+        return False
+    rstats = dict(
+        mtls_refused_after_reload=sum(1 for s in rscripts if s["mtls"] and probes_after_reload(s, ("none", "otherCA"), "serverRejects")),
+        mtls_admitted_after_reload=sum(1 for s in rscripts if s["mtls"] and probes_after_reload(s, ("trustedCA",), "ok")),
+        plain_admitted_after_reload=sum(1 for s in rscripts if not s["mtls"] and probes_after_reload(s, ("none", "otherCA", "trustedCA"), "ok")),
+        use_after_reload=sum(1 for s in rscripts if after_reload(s, "use")),
+        refused_before_reload=sum(1 for s in rscripts if s["mtls"] and any(
+            o["op"] == "connect" and o["conn"] == 0 for o in s["ops"][:[x["op"] for x in s["ops"]].index("reload")])),
+    )
+    if not all(rstats.values()):
+        raise ToolError(f"vacuous real-server scripts: {rstats}")
+    for s in rscripts:
+        for o, e in zip(s["ops"], s["exp"]):
+            if o["op"] == "connect" and (o["conn"] > 0) != (e["outcome"] == ["ok"]):
+                raise ToolError(f"real-server script: slot and expectation disagree in {s}")
+    return cells, scripts, rscripts, dict(distinct=r["distinct"], generated=r["states"], wall=r["wall"], by=by,
+                                          connect_after_reload=n_car, use_after_reload=n_uar, real=rstats)
 
 
 def negative_controls():
@@ -90,7 +133,7 @@ def negative_controls():
     return res
 
 
-def run_harness(bin_path, cases, out, seed, npki, algs, scratch):
+def run_harness(bin_path, cases, out, seed, npki, algs, scratch, quiet=False):
     env = {k: v for k, v in os.environ.items() if k != "SSLKEYLOGFILE"}
     t = time.time()
     rc, o = vlib.run([bin_path, cases, out, str(seed), str(npki), algs, NAMEKINDS, scratch], timeout=3000, env=env)
@@ -98,7 +141,35 @@ def run_harness(bin_path, cases, out, seed, npki, algs, scratch):
         log(o[-3000:])
         raise ToolError("tls_matrix failed on " + cases)
     shutil.rmtree(scratch, ignore_errors=True)
-    log(f"[run] tls_matrix {os.path.basename(cases)} x {npki} PKI set(s): {sum(1 for _ in open(out))} lines ({time.time() - t:.1f}s)")
+    if not quiet:
+        log(f"[run] tls_matrix {os.path.basename(cases)} x {npki} PKI set(s): {sum(1 for _ in open(out))} lines ({time.time() - t:.1f}s)")
+
+
+def run_real(bin_path, rscripts, work, out, seed, procs, algs):
+    """The real-server scripts, dealt out round robin to `procs` harness processes running side by side (each with
+    its own PKI set, chosen by its own seed); the logs are concatenated in a fixed order."""
+    t = time.time()
+    procs = max(1, min(procs, len(rscripts)))
+    parts = []
+    for k in range(procs):
+        cpath = os.path.join(work, f"rscripts_{k}.ndjson")
+        with open(cpath, "w") as f:
+            for i, s in enumerate(rscripts, 1):
+                if (i - 1) % procs == k:
+                    f.write(json.dumps(dict(ev="rscript", id=i, mtls=s["mtls"], ops=s["ops"]), separators=(",", ":")) + "\n")
+        parts.append((cpath, os.path.join(work, f"real_log_{k}.ndjson"), int(seed) + 104729 * (k + 1), os.path.join(work, f"pki_r{k}")))
+    with concurrent.futures.ThreadPoolExecutor(max_workers=procs) as ex:
+        futs = [ex.submit(run_harness, bin_path, c, o, sd, 1, algs, sc, True) for c, o, sd, sc in parts]
+        for f in futs:
+            f.result()  # a ToolError of any process is the check's
+    with open(out, "w") as f:
+        for _, o, _, _ in parts:
+            f.write(open(o).read())
+    want = sum(1 + len(s["ops"]) for s in rscripts)
+    got = sum(1 for _ in open(out))
+    if got != want:
+        raise ToolError(f"tls_matrix logged {got} lines for {want} real-server script lines")
+    log(f"[run] tls_matrix real server (server_main + SIGUSR1): {len(rscripts)} scripts in {procs} processes: {got} lines ({time.time() - t:.1f}s)")
 
 
 def validate(path):
@@ -144,6 +215,17 @@ def describe(rec, exp):
             got = (f"client hs={rec.get('client_hs')} rt={rec.get('client_rt')} server hs={rec.get('server_hs')} rt={rec.get('server_rt')} "
                    f"client saw cn={rec.get('seen_cn')!r} serial={rec.get('seen_serial')} mtls={rec.get('mtls')} server saw client cert={rec.get('srv_saw_client_cert')} ({str(rec.get('client_err'))[:100]} / {str(rec.get('server_err'))[:100]})")
         return f"script {rec['id']} step {rec['i']} {rec['op']}({rec['conn']}) -> {got}   property: {json.dumps(exp, sort_keys=True)}"
+    if rec.get("ev") == "rstep":
+        seen = f"client saw cn={rec.get('seen_cn')!r} serial={rec.get('seen_serial')}"
+        if rec["op"] == "reload":
+            what = f"reload (SIGUSR1) to identity {rec.get('to')}"
+            got = f"res={rec.get('res')} after {rec.get('polls')} probe handshakes, last probe: hs={rec.get('client_hs')} rt={rec.get('client_rt')} {seen}"
+        else:
+            what = (f"connect presenting clientCert={rec.get('cc')} (slot {rec['conn']})" if rec["op"] == "connect" else f"use({rec['conn']})")
+            got = (f"client hs={rec.get('client_hs')} rt={rec.get('client_rt')} http={rec.get('http_status')} {seen} "
+                   f"({str(rec.get('client_err'))[:100]})")
+        return (f"real-server script {rec['id']} (mtls={rec.get('mtls')}, {rec.get('reloads')} reload(s) so far) step {rec['i']} {what} -> {got}"
+                f"   property: {json.dumps(exp, sort_keys=True)}")
     return json.dumps(rec, sort_keys=True)[:300]
 
 
@@ -153,12 +235,75 @@ def item_lines(lines, ln):
     if rec["ev"] == "case":
         return [lines[ln - 1]]
     i = ln - 1
-    while i > 0 and json.loads(lines[i])["ev"] != "script":
+    while i > 0 and json.loads(lines[i])["ev"] not in HEADERS:
         i -= 1
+    step = HEADERS.get(json.loads(lines[i])["ev"])
     j = i + 1
-    while j < len(lines) and json.loads(lines[j])["ev"] == "step":
+    while j < len(lines) and json.loads(lines[j])["ev"] == step:
         j += 1
     return lines[i:j]
+
+
+def self_test(work, path, badset, strict=True):
+    """The binding of the real-server lines is real: hand-made corruptions of scripts ACCEPTED in this very run must be
+    rejected by TLC, each at the corrupted line and with the signature of the clause it breaks.
+    Returns {corruption: signature}."""
+    lines = open(path).readlines()
+    scripts, cur = [], None      # accepted scripts as lists of records
+    for i, text in enumerate(lines, 1):
+        rec = json.loads(text)
+        if rec["ev"] == "rscript":
+            cur = [rec]
+            scripts.append(cur)
+        elif cur is not None:
+            cur.append(rec)
+        if i in badset and cur is not None:
+            cur.append(None)
+    scripts = [sc for sc in scripts if None not in sc]
+
+    def reached(r):
+        return dict(r, http_status=404, client_hs="ok", client_rt="ok", cli_data="verif-c17-not-found", client_err="")
+
+    def refused(r):
+        return dict(r, http_status=0, client_rt="alert", cli_data="", client_err="AlertReceived(CertificateRequired)")
+    wanted = {
+        # after a reload the mutual-TLS server serves a client without a certificate under the configured CA
+        "reload_drops_client_auth": lambda h, r: h["mtls"] and r["op"] == "connect" and r["reloads"] > 0 and r["cc"] != "trustedCA" and reached(r),
+        "server_accepts_unauthenticated_client": lambda h, r: h["mtls"] and r["op"] == "connect" and r["reloads"] == 0 and r["cc"] != "trustedCA" and reached(r),
+        "handshake_fails_after_reload": lambda h, r: r["op"] == "connect" and r["reloads"] > 0 and r["http_status"] and refused(r),
+        "server_demands_client_cert_without_ca": lambda h, r: not h["mtls"] and r["op"] == "connect" and r["reloads"] == 0 and r["cc"] == "none" and refused(r),
+        "new_handshake_sees_stale_identity": lambda h, r: r["op"] == "connect" and r["reloads"] > 0 and r["conn"] == 0 and r["client_hs"] == "ok"
+                                                           and dict(r, seen_cn="srv-v0", seen_serial=100),
+        "reload_not_effective": lambda h, r: r["op"] == "reload" and dict(r, res="stale", seen_cn=f"srv-v{r['to'] - 1}", seen_serial=100 + r["to"] - 1),
+        "reload_disturbs_established_connection": lambda h, r: r["op"] == "use" and r["reloads"] > 0 and dict(r, http_status=0, client_rt="eof", cli_data=""),
+        "established_connection_changes_identity": lambda h, r: r["op"] == "use" and r["reloads"] > 0 and r["seen_serial"] == 100
+                                                                 and dict(r, seen_cn="srv-v1", seen_serial=101),
+    }
+    out, expect = [], {}
+    for name, f in wanted.items():
+        for sc in scripts:
+            hit = next(((k, m) for k, r in enumerate(sc[1:], 1) for m in [f(sc[0], r)] if m), None)
+            if hit:
+                expect[len(out) + hit[0] + 1] = name
+                out += [hit[1] if k == hit[0] else r for k, r in enumerate(sc)]
+                break
+    missing = set(wanted) - set(expect.values())
+    # (when lines of this run were rejected, the material for a corruption may be missing: that is the finding's business)
+    if missing and strict:
+        raise ToolError(f"self-test: corruptions {sorted(missing)} could not be derived from the accepted real-server scripts of this run")
+    if not expect:
+        return {}
+    spath = os.path.join(work, "selftest.ndjson")
+    with open(spath, "w") as fh:
+        for r in out:
+            fh.write(json.dumps(r, separators=(",", ":")) + "\n")
+    _, bad, _ = validate(spath)
+    got = {ln: sig for ln, sig, _ in bad}
+    for ln, name in expect.items():
+        if got.get(ln) != name:
+            raise ToolError(f"self-test: the corruption `{name}` of an accepted line (line {ln} of {spath}) was "
+                            f"{'accepted' if ln not in got else 'rejected as ' + got[ln]} by TLC")
+    return {name: got[ln] for ln, name in expect.items()}
 
 
 def check(prop, tier, seed, replay):
@@ -171,21 +316,29 @@ def check(prop, tier, seed, replay):
     try:
         logs = []  # (name, path)
         mc = neg = None
-        n_cases = n_scripts = 0
+        n_cases = n_scripts = n_rscripts = 0
+        st = real_run = None
         if replay:
             out = os.path.join(work, "replay_log.ndjson")
             run_harness(bin_path, os.path.abspath(replay), out, seed, 1, T["algs"], os.path.join(work, "pki_r"))
             logs.append(("replay", out))
         else:
             # 1. model checking: invariants of the reload machine, enumeration of cells and scripts
-            cells, scripts, mc = enumerate_cases(T["cfg"])
+            cells, scripts, rscripts, mc = enumerate_cases(T["cfg"])
             log(f"[mc] {T['cfg']}: {mc['distinct']} distinct states, {mc['generated']} generated, {mc['wall']:.1f}s: "
-                f"72 cells ({dict(mc['by'])}), {len(scripts)} complete scripts ({T['bounds']}); Undisturbed, Fresh hold")
+                f"72 cells ({dict(mc['by'])}), {len(scripts)} complete scripts ({T['bounds']}), {len(rscripts)} complete "
+                f"real-server scripts ({T['real_bounds']}); Undisturbed, Fresh, ConfigKept, Authenticated hold")
             neg = negative_controls()
             log("[mc] negative controls (wrong reload implementations) caught: " +
                 ", ".join(f"{k.split('_neg_')[1]}->{v['violated']}" for k, v in neg.items()))
             # 2. the real code: the matrix with the application's client (TLS 1.3) and, for the cells without
             #    skip-verify, with a reference TLS 1.2 client against the application's server configuration
+            # (the real-server scripts run in processes of their own, side by side with the matrix and the duplex scripts)
+            n_rscripts = len(rscripts)
+            real_out = os.path.join(work, "real_log.ndjson")
+            pool = concurrent.futures.ThreadPoolExecutor(max_workers=1)
+            real_run = pool.submit(run_real, bin_path, rscripts, work, real_out, seed, T["real_procs"], T["algs"])
+            pool.shutdown(wait=False)
             cpath = os.path.join(work, "cases.ndjson")
             with open(cpath, "w") as f:
                 for c in cells:
@@ -213,6 +366,9 @@ def check(prop, tier, seed, replay):
             if got != want:
                 raise ToolError(f"tls_matrix logged {got} lines for {want} script lines")
             logs.append(("scripts", out))
+            # the same machine through the real server entry point
+            real_run.result()
+            logs.append(("real", real_out))
         # 3. TLC validates every logged line
         total = accepted = 0
         rejected = collections.defaultdict(list)  # sig -> [(rec, expected, item lines)]
@@ -247,6 +403,23 @@ def check(prop, tier, seed, replay):
                         nontrivial.add(("case", rec["client"], cell_of(rec), rec["alg"], rec["namekind"]))
                         if len(samples) < 3 and cls not in [s.get("_cls") for s in samples]:
                             samples.append(dict(rec, _cls=cls))
+                elif rec["ev"] == "rscript":
+                    script_ok = [rec, True, False]
+                elif rec["ev"] == "rstep":
+                    cls = (rec.get("res") if rec["op"] == "reload" else
+                           f"{rec.get('cc', '')}:" + ("reached" if rec.get("http_status") else "refused:" + str(rec.get("client_rt"))))
+                    outcome[("real", "mtls" if rec.get("mtls") else "plain", "after-reload" if rec.get("reloads") else "before-reload", rec["op"], cls)] += 1
+                    if script_ok is not None:
+                        if i in badset:
+                            script_ok[1] = False
+                        if rec["op"] == "reload":
+                            script_ok[2] = True
+                        elif script_ok[1] and script_ok[2]:
+                            h = script_ok[0]
+                            nontrivial.add(("rscript", json.dumps(h["ops"]), h["mtls"], h["alg"], h["namekind"], h["pki"]))
+                            if (rec["op"] == "connect" and rec.get("mtls") and not rec.get("http_status")
+                                    and not any(s.get("ev") == "rstep" for s in samples)):
+                                samples.append(rec)
                 elif rec["ev"] == "script":
                     script_ok = [rec, True, False]
                 elif rec["ev"] == "step":
@@ -262,6 +435,9 @@ def check(prop, tier, seed, replay):
                             if rec["op"] == "use" and not any(s.get("ev") == "step" for s in samples):
                                 samples.append(rec)
             log(f"[trace] {name}: {n} lines, {n - len(bad)} accepted by TLC, {len(bad)} rejected ({tv:.1f}s)")
+            if name == "real":
+                st = self_test(work, path, badset, strict=not bad)
+                log("[selftest] hand-corrupted copies of accepted real-server lines rejected by TLC: " + ", ".join(sorted(st)))
         # 4. verdict
         known = {k.get("sig"): k for k in vlib.load_known()
                  if k.get("property") == prop and k.get("status") == "open" and k.get("sig")}
@@ -300,14 +476,18 @@ def check(prop, tier, seed, replay):
                 rule="counted: (a) accepted matrix lines distinct by client kind, cell and PKI parameters - each is a real "
                      "handshake (and round trip) whose outcome class, delivered data, presented certificate and "
                      "client-certificate request were compared with the table; (b) accepted scripts, distinct by operations, "
-                     "mTLS flag and PKI set, in which a handshake or a use of an established connection follows a reload",
+                     "mTLS flag and PKI set, in which a handshake or a use of an established connection follows a reload; "
+                     "(c) accepted real-server scripts (server_main + SIGUSR1 over loopback TCP), counted the same way",
                 samples=samples or [dict(note="no accepted line in this run")],
                 model_checking_runs=[dict(config=T["cfg"], distinct_states=mc["distinct"], states_generated=mc["generated"],
                                           wall_s=round(mc["wall"], 1))],
                 negative_controls=neg,
+                self_test=st,
                 matrix_cells=72, cells_by_expectation=dict(mc["by"]),
                 matrix_executions=n_cases * T["npki"], pki_sets=sorted(list(x) for x in pki_sets),
                 scripts=n_scripts, script_bounds=T["bounds"], script_pki_sets=T["script_sets"],
+                real_server_scripts=n_rscripts, real_server_script_bounds=T["real_bounds"],
+                real_server_processes=T["real_procs"], real_server_scripts_by_content=mc["real"],
                 scripts_with_connect_after_reload=mc["connect_after_reload"],
                 scripts_with_use_after_reload=mc["use_after_reload"],
                 observed={"/".join(str(x) for x in k): n for k, n in sorted(outcome.items(), key=str)},
@@ -321,16 +501,34 @@ def check(prop, tier, seed, replay):
                             "code: rcgen chains (two CAs, a self-signed certificate, right and wrong names, client "
                             "certificates), make_server_config / make_tls_identity / reload_tls_identity + "
                             "tokio_rustls::TlsAcceptor on one end of a tokio duplex, tls_connect on the other, followed by an "
-                            "application-data round trip; TLC validates every logged line (spec/TlsTrace.tla)",
+                            "application-data round trip; TLC validates every logged line (spec/TlsTrace.tla). The reload "
+                            "machine also carries the server's client CA (wantCA as configured, liveCA as served; a reload "
+                            "keeps it: ConfigKept, Authenticated; negative control 'dropca'), and its scripts are ALSO run "
+                            "through the real entry point: rusty_penguin_lib::server::server_main in the harness process "
+                            "with --tls-cert/--tls-key[/--tls-ca] on a loopback port, tls_connect over TCP presenting the "
+                            "trusted client certificate / none / one of another CA, an HTTP request/response as the round "
+                            "trip, a reload = rewrite the files + SIGUSR1 to the process (check_start_tls -> "
+                            "register_signal_handler -> reload_tls_identity with the arguments the server kept); the harness "
+                            "waits for its own SIGUSR1 listener and then for a probe handshake served with the new "
+                            "certificate, and TLC judges every handshake by the decision table for the CONFIGURED client CA",
             )
             vlib.write_evidence(prop, tier, seed, coverage, wall, sum(v[2] for v in violations), assumptions=[
                 "thin use of TLA+: a decision table and a small state machine serve as the reference decision procedure; "
                 "the cryptography (signatures, path building, name matching, the handshake itself) is trusted to rustls / "
                 "webpki / aws-lc-rs, and certificate generation to rcgen",
-                "the transport is tokio::io::duplex, not TCP; the WebSocket/HTTP layer above TLS and the name selection in "
-                "client/ws_connect.rs (--hostname / --tls-server-name) are not exercised: tls_connect is called with the name",
-                "the server end repeats the two lines of server/mod.rs (identity.load_full() when the connection is accepted, "
-                "TlsAcceptor::from(config).accept(stream)) instead of running run_listener over TCP",
+                "matrix and duplex scripts: the transport is tokio::io::duplex, not TCP, and the server end repeats the two "
+                "lines of server/mod.rs (identity.load_full() when the connection is accepted, "
+                "TlsAcceptor::from(config).accept(stream)); the real-server scripts run server_main / run_listener over "
+                "loopback TCP. The WebSocket layer above TLS and the name selection in client/ws_connect.rs (--hostname / "
+                "--tls-server-name) are not exercised: tls_connect is called with the name",
+                "real-server scripts observe the client end only: 'the server refused' = no HTTP response and the "
+                "connection ended by the server (alert / EOF / reset, in TLS 1.3 at the first round trip); whether the server "
+                "asked for a certificate is not observable there (it is in the matrix and the duplex scripts)",
+                "real-server scripts: one server_main (one SIGUSR1 reload task) per harness process at a time, each script in "
+                "a tokio runtime of its own; a reload is awaited by (1) the harness's own SIGUSR1 listener (tool error if "
+                "silent for 30 s) and (2) probe handshakes until one is served the new certificate; 'still the old "
+                "certificate 30 s after the signal was delivered' is logged as an observation (reload_not_effective). The "
+                "ACME renewal path (reload_tls_identity_from_pem) is not exercised",
                 "the application's client is TLS 1.3 only (tls_connect always adds ECH GREASE), so the protocol version "
                 "cannot be chosen through the API; TLS 1.2 is covered for the SERVER configuration only, with a reference "
                 "rustls client of the harness (cells without skip-verify)",
@@ -339,7 +537,8 @@ def check(prop, tier, seed, replay):
                 "when both peers would reject, either may be observed to (TLS 1.2 and 1.3: the client checks first)",
                 "key generation uses the system RNG and is not reproducible; the seed selects key algorithm, name kind "
                 "(DNS / IP literal) and names of each PKI set; certificates are valid 1975-4096 (no clock dependence)",
-                "reload: same file paths with new content, as the SIGUSR1 handler does; a failing reload is not modelled",
+                "reload: same file paths with new content, as the SIGUSR1 handler does; a failing reload (unreadable or "
+                "mismatching files) is not modelled",
             ])
         if violations:
             for path, sig, n in violations:
@@ -348,6 +547,8 @@ def check(prop, tier, seed, replay):
         log(f"{prop} held on everything explored ({total} lines, {wall:.0f}s)")
         return 0
     finally:
+        if real_run is not None:
+            concurrent.futures.wait([real_run])
         shutil.rmtree(work, ignore_errors=True)
 
 
